@@ -75,7 +75,14 @@ class Engine:
         s.fns = {}
         for crate, path in mir_files.items():
             s.fns.update(mirparse.parse_mir(open(path).read(), crate))
-        s.typedefs = mirparse.typedefs()
+        s.typedefs = {k: list(v) for k, v in mirparse.typedefs().items()}
+        s.repo_types = set(s.typedefs)
+        if "tx3-cardano" in mir_files:
+            for c in ("pallas-primitives", "pallas-codec", "pallas-addresses", "pallas-crypto"):
+                for name, defs in mirparse.foreign_crate_types(c).items():
+                    if name in s.repo_types:
+                        continue
+                    s.typedefs.setdefault(name, []).extend(defs)
         s.max_steps = max_steps
         s.stats = Stats()
         s.solver = z3.Solver()
@@ -85,8 +92,9 @@ class Engine:
         s.trace = os.environ.get("MIRSYM_TRACE") == "1"
         s.fresh_n = 0
         s.pc = []
-        import models
+        import models, models_pallas
         models.register(s)
+        models_pallas.register(s)
 
     # ------------------------------------------------------------------ indices
     def _index(s):
@@ -135,6 +143,12 @@ class Engine:
                 # trait default methods appear as module::Trait::method
                 if len(segs) >= 2 and segs[-2][:1].isupper():
                     s.trait_defaults[(segs[-2], segs[-1])] = f
+
+    def impl_self_text(s, fn):
+        for rec in s.impls:
+            if fn in rec[5].values():
+                return rec[2]
+        return ""
 
     def fn_module(s, fn):
         """module (file stem) a MIR function was defined in"""
@@ -408,6 +422,94 @@ class Engine:
                 return s.mk_ordering(0)
             return s.mk_ordering(1)
         raise Unmodelled("binop " + op)
+
+    def int_method(s, ty, method, a, callee):
+        """inherent integer methods (checked_/wrapping_/overflowing_/saturating_ families etc.)"""
+        w, sg = INT[ty]
+        lo = -(1 << (w - 1)) if sg else 0
+        hi = (1 << (w - 1)) - 1 if sg else (1 << w) - 1
+        fam = re.fullmatch(r"(checked|wrapping|overflowing|saturating|unchecked)_(add|sub|mul|neg|div|rem)", method)
+        if fam:
+            kind, op = fam.groups()
+            if op == "neg":
+                x, y = 0, a[0]
+                r = s.binop("SubWithOverflow", x, y, ty)
+            elif op in ("div", "rem"):
+                if kind == "checked":
+                    if s.decide(s.binop("Eq", a[1], 0, ty)):
+                        return none()
+                    if sg and s.decide(b_and(s.binop("Eq", a[0], lo, ty), s.binop("Eq", a[1], -1, ty))):
+                        return none()
+                    return some(s.binop("Div" if op == "div" else "Rem", a[0], a[1], ty))
+                raise Unmodelled("int method " + method)
+            else:
+                r = s.binop({"add": "AddWithOverflow", "sub": "SubWithOverflow", "mul": "MulWithOverflow"}[op], a[0], a[1], ty)
+            val, ovf = r.fields
+            if kind == "checked":
+                return none() if s.decide(ovf) else some(val)
+            if kind in ("wrapping", "unchecked"):
+                return val
+            if kind == "overflowing":
+                return tup(val, ovf)
+            if kind == "saturating":
+                if not s.decide(ovf):
+                    return val
+                if not sg:
+                    return hi if op in ("add", "mul") else lo
+                # signed: direction of the overflow
+                if op == "add":
+                    return hi if s.decide(s.binop("Ge", a[1], 0, ty)) else lo
+                if op == "sub":
+                    return lo if s.decide(s.binop("Ge", a[1], 0, ty)) else hi
+                neg = b_and(s.binop("Lt", a[0], 0, ty), s.binop("Ge", a[1], 0, ty))
+                neg = b_or(neg, b_and(s.binop("Ge", a[0], 0, ty), s.binop("Lt", a[1], 0, ty)))
+                return lo if s.decide(neg) else hi
+        x = a[0]
+        if method in ("abs", "unsigned_abs", "wrapping_abs"):
+            if isinstance(x, int):
+                r = abs(x)
+                if method == "abs" and r > hi:
+                    raise Panic("overflow", "attempt to negate with overflow (abs)", callee)
+                return wrap(r, w, sg and method != "unsigned_abs")
+            if method == "abs" and s.decide(x == z3.BitVecVal(lo, w)):
+                raise Panic("overflow", "attempt to negate with overflow (abs)", callee)
+            return z3.If(x < 0, -x, x)
+        if method in ("is_negative", "is_positive"):
+            return s.binop("Lt" if method == "is_negative" else "Gt", x, 0, ty)
+        if method == "signum":
+            if isinstance(x, int):
+                return (x > 0) - (x < 0)
+            return z3.If(x > 0, z3.BitVecVal(1, w), z3.If(x < 0, z3.BitVecVal(-1, w), z3.BitVecVal(0, w)))
+        if method in ("min", "max"):
+            c = s.binop("Le", a[0], a[1], ty)
+            pick = s.decide(c)
+            return (a[0] if pick else a[1]) if method == "min" else (a[1] if pick else a[0])
+        if method == "pow" and isinstance(a[1], int) and a[1] <= 4:
+            r = 1
+            for _ in range(a[1]):
+                t = s.binop("MulWithOverflow", r, x, ty)
+                if s.decide(t.fields[1]):
+                    raise Panic("overflow", "attempt to multiply with overflow (pow)", callee)
+                r = t.fields[0]
+            return r
+        if method in ("to_be_bytes", "to_le_bytes"):
+            if isinstance(x, int):
+                bs = list((x & ((1 << w) - 1)).to_bytes(w // 8, "big"))
+            else:
+                bs = [z3.Extract(w - 1 - 8 * i, w - 8 - 8 * i, x) for i in range(w // 8)]
+            return VecM(bs if method == "to_be_bytes" else list(reversed(bs)), "array")
+        if method in ("from_be_bytes", "from_le_bytes"):
+            bs = list(x.get().items if isinstance(x, Ref) else x.items)
+            if method == "from_le_bytes":
+                bs = list(reversed(bs))
+            if all(isinstance(b, int) for b in bs):
+                return wrap(int.from_bytes(bytes(bs), "big"), w, sg)
+            return z3.Concat(*[s.to_bv(b, 8) for b in bs])
+        if method in ("leading_zeros", "trailing_zeros", "count_ones") and isinstance(x, int):
+            u = x & ((1 << w) - 1)
+            b = bin(u)[2:].zfill(w)
+            return {"leading_zeros": len(b) - len(b.lstrip("0")), "trailing_zeros": (len(b) - len(b.rstrip("0"))) if u else w, "count_ones": b.count("1")}[method]
+        raise Unmodelled("integer method %s::%s" % (ty, method))
 
     def mk_ordering(s, c):
         name = {-1: "Less", 0: "Equal", 1: "Greater"}[c]
@@ -689,6 +791,8 @@ class Engine:
     def qual(s, name, module):
         """runtime name of a repository type: bare if unique, `module::Name` if the name is
         defined in several modules"""
+        if name not in s.repo_types:
+            return name
         return name if len(s.typedefs.get(name, [])) <= 1 else "%s::%s" % (module, name)
 
     def tdef(s, name, kind=None, variant=None, hint=None):
@@ -701,6 +805,9 @@ class Engine:
         if len(c) > 1 and hint:
             cc = [d for d in c if d[0] == hint]
             c = cc or c
+        if len(c) > 1 and name not in s.repo_types:
+            cc = [d for d in c if d[0] == "conway"]
+            c = cc or c
         if not c:
             return None, None
         return s.qual(name, c[0][0]), c[0]
@@ -709,7 +816,7 @@ class Engine:
         """canonical runtime name of a type written in source / MIR text"""
         t = re.sub(r"^&(?:'\w+ )?(?:mut )?", "", text.strip())
         base = strip_generics(t)
-        if len(s.typedefs.get(base, [])) > 1:
+        if len(s.typedefs.get(base, [])) > 1 and base in s.repo_types:
             path = re.sub(r"<.*>", "", t).split("::")
             hint = path[-2] if len(path) >= 2 else module
             q, d = s.tdef(base, hint=hint)
@@ -805,17 +912,19 @@ class Engine:
                     caps.append((k.strip(), s.parse_operand(v)))
             return ("coroutine", m.group(1), caps)
         # aggregates: Path { f: op, .. } | Path(op, ..) | Path
-        m = re.match(r"([A-Za-z_][^{(]*?)\s*\{(.*)\}$", t, re.S)
-        if m and not t.startswith("{"):
-            fields = []
-            body = m.group(2).strip()
-            for part in split_top(body) if body else []:
-                k, v = part.split(":", 1)
-                fields.append((k.strip(), s.parse_operand(v)))
-            return ("struct", m.group(1).strip(), fields)
-        m = re.match(r"([A-Za-z_<][^(]*?)\((.*)\)$", t, re.S)
-        if m:
-            return ("tuplestruct", m.group(1).strip(), [s.parse_operand(x) for x in split_top(m.group(2))])
+        if t.endswith("}") and not t.startswith("{"):
+            k = _match_open(t, "{", "}")
+            if k is not None and k > 0:
+                fields = []
+                body = t[k + 1:-1].strip()
+                for part in split_top(body) if body else []:
+                    kk, v = part.split(":", 1)
+                    fields.append((kk.strip(), s.parse_operand(v)))
+                return ("struct", t[:k].strip(), fields)
+        if t.endswith(")"):
+            k = _match_open(t, "(", ")")
+            if k is not None and k > 0:
+                return ("tuplestruct", t[:k].strip(), [s.parse_operand(x) for x in split_top(t[k + 1:-1])])
         if re.fullmatch(r"[A-Za-z_<][\w:<>, '&\[\]\(\);]*", t):
             return ("tuplestruct", t, [])
         raise Unmodelled("rvalue " + t)
@@ -1247,6 +1356,10 @@ class Engine:
     def call_model(s, key, args, callee, frame=None):
         m = s.models.get(key)
         if m is None:
+            mi = re.fullmatch(r"([iu](?:8|16|32|64|128|size))::(\w+)", key)
+            if mi:
+                s.stats.models_used["int::" + mi.group(2)] = 1
+                return s.int_method(mi.group(1), mi.group(2), args, callee)
             raise Unmodelled("call %s (key %s)" % (callee, key))
         s.stats.models_used[key] = s.stats.models_used.get(key, 0) + 1
         return m(s, args, callee)
@@ -1256,7 +1369,7 @@ class Engine:
         t = re.sub(r"^&(?:'\w+ )?(?:mut )?", "", t)
         base = strip_generics(t)
         # type parameters (single identifiers that are not known types) resolve by the runtime value
-        if base in s.typedefs and len(s.typedefs[base]) > 1:
+        if base in s.repo_types and len(s.typedefs[base]) > 1:
             return s.canon_type(t, s.fn_module(frame.fn) if frame is not None else None), False
         if re.fullmatch(r"[A-Z]\w{0,2}|Self|__\w+", base) and base not in s.typedefs:
             if args:
@@ -1292,6 +1405,12 @@ class Engine:
             if base == sname:
                 (structural if "<" in ity and base in ("Option", "Vec", "HashMap", "Box", "BTreeMap", "HashSet") else exact).append(methods[method])
         for cands in (exact, structural):
+            if len(cands) > 1:
+                # several impls for one outer type (`Vec<A>` / `Vec<B>`): match the full self type text
+                want = _norm_ty(re.sub(r"^&(?:'\w+ )?(?:mut )?", "", self_t.strip()))
+                cc = [f for f in cands if _norm_ty(s.impl_self_text(f)) == want]
+                if len(cc) == 1:
+                    cands = cc
             if len(cands) == 1:
                 return s.call_fn(cands[0], args)
             if len(cands) > 1:
@@ -1338,10 +1457,13 @@ class Engine:
         if isinstance(f, FnItem):
             if f.name.startswith("ctor "):
                 segs = f.name[5:].split("::")
-                r = s.mk_variant(segs[-2], segs[-1], list(args)) if len(segs) >= 2 else None
-                if r is None:
-                    r = Agg(strip_generics(segs[-1]), None, 0, list(args))
-                return r
+                r = s.mk_variant(segs[-2], segs[-1], list(args), segs[-3] if len(segs) >= 3 else None) if len(segs) >= 2 else None
+                if r is not None:
+                    return r
+                q, d = s.tdef(segs[-1], "struct")
+                if d is not None and segs[-1] not in s.by_short:
+                    return Agg(q, None, 0, list(args))
+                return s.dispatch(None, f.name[5:], args)
             return s.dispatch(None, f.name, args)
         raise Unmodelled("call of %s" % type(f).__name__)
 
@@ -1355,6 +1477,19 @@ class Engine:
         else:
             first = clo
         return s.call_fn(fn, [first] + list(args))
+
+
+def _match_open(t, o, c):
+    """index of the bracket `o` that matches the final `c` of t"""
+    d = 0
+    for i in range(len(t) - 1, -1, -1):
+        if t[i] == c:
+            d += 1
+        elif t[i] == o:
+            d -= 1
+            if d == 0:
+                return i
+    return None
 
 
 def _norm_ty(t):
